@@ -247,7 +247,10 @@ pub fn diff(a: &Snap, b: &Snap) -> Vec<(String, Change)> {
 }
 
 /// Content-only hash of a snapshot (paths + bytes + link targets), for determinism witnesses.
+/// Occurrences of the scratch root path inside file contents are redacted, so that the same case
+/// run in another worker's scratch directory gives the same hash.
 pub fn snap_hash(s: &Snap) -> u64 {
+    let root = SCRATCH_ROOT.with(|r| r.borrow().clone());
     let mut h: u64 = 0xcbf2_9ce4_8422_2325;
     let mut feed = |b: &[u8]| {
         for x in b {
@@ -257,16 +260,42 @@ pub fn snap_hash(s: &Snap) -> u64 {
         h ^= 0xff;
         h = h.wrapping_mul(0x0000_0100_0000_01b3);
     };
+    let redact = |data: &[u8]| -> Vec<u8> {
+        if root.is_empty() || data.len() < root.len() {
+            return data.to_vec();
+        }
+        let mut out = Vec::with_capacity(data.len());
+        let mut i = 0;
+        while i < data.len() {
+            if data[i..].starts_with(&root) {
+                out.extend_from_slice(b"@SCRATCH@");
+                i += root.len();
+            } else {
+                out.push(data[i]);
+                i += 1;
+            }
+        }
+        out
+    };
     for (k, v) in s {
         feed(k.as_bytes());
         match v {
             Node::Dir => feed(b"D"),
-            Node::File { data, .. } => feed(data),
-            Node::Symlink { target, .. } => feed(target.as_bytes()),
+            Node::File { data, .. } => feed(&redact(data)),
+            Node::Symlink { target, .. } => feed(&redact(target.as_bytes())),
             Node::Other => feed(b"O"),
         }
     }
     h
+}
+
+thread_local! {
+    static SCRATCH_ROOT: std::cell::RefCell<Vec<u8>> = const { std::cell::RefCell::new(Vec::new()) };
+}
+
+/// Tell `snap_hash` which path prefix is specific to this worker (its scratch directory).
+pub fn set_scratch_for_hash(p: &Path) {
+    SCRATCH_ROOT.with(|r| *r.borrow_mut() = p.display().to_string().into_bytes());
 }
 
 /// Restore a tree to a snapshot's content (files, dirs, symlinks). Inodes and mtimes are new.
